@@ -28,7 +28,7 @@ structure DWake (s : Nat) (st : Stream) (cl : Client) : Prop where
   refused_wakes : st.src.pc = .wmapAsleep → (cv st.sinkCh).acc = false → st.snk.pc = .errAccNotify ∨ cl.pc = .accNotify s 1
 
 def DWakeP (s : Nat) (st : Stream) (cl : Client) : Prop :=
-  st.cam.failAt = none → st.cam.emptyEvery = 0 → cl.misused = false → DWake s st cl
+  st.cam.emptyEvery = 0 → cl.misused = false → DWake s st cl
 
 set_option maxHeartbeats 4000000 in
 theorem DWake.src (s : Nat) (cl : Client) : ∀ a ∈ srcActs s, ∀ st, a.guard st = true → DUse s st cl → DWake s st cl → DWake s (a.upd st) cl := by
@@ -45,9 +45,7 @@ theorem DWake.src (s : Nat) (cl : Client) : ∀ a ∈ srcActs s, ∀ st, a.guard
   -- src.wmap.ok
   case inr.inr.inr.inr.inr.inr.inr.inr.inl =>
     obtain ⟨b, hb⟩ := (isWok_iff _).mp hg.2
-    have hp : (cv st.sinkCh).pending = false := by
-      have := k7; rcases hg.1.1 with e | e <;> simp_all [srcHold]
-    obtain ⟨hok, hcv⟩ := hwo b hp hb
+    obtain ⟨hok, hcv⟩ := hwo b hb
     constructor
     all_goals (try simp only [hcv])
     all_goals (first | assumption | grind)
@@ -60,7 +58,8 @@ theorem DWake.src (s : Nat) (cl : Client) : ∀ a ∈ srcActs s, ∀ st, a.guard
     all_goals (first | assumption | grind)
   -- src.commit
   case inr.inr.inr.inr.inr.inr.inr.inr.inr.inr.inr.inr.inr.inr.inr.inr.inr.inr.inl =>
-    have hp : (cv st.sinkCh).pending = true := by have := k7; simp_all [srcHold]
+    have hsh : srcHold st.src.pc = true := by (have := hg.1; simp_all [srcHold])
+    have hp : (cv st.sinkCh).pending = true := k7 hsh
     obtain ⟨hok, hcv⟩ := hcm hp
     constructor
     all_goals (try simp only [hcv])
